@@ -300,6 +300,8 @@ SIMP_EXTRA = [
     "exists X Y (X = Y and Y = X and t(X, Y))", "exists X$i Y$i (X$i = Y$i + 1 and Y$i = X$i + 1)",
     "exists Y (exists N$i (N$i = Y and p(N$i)) and exists Y (q(Y)))",
     "forall Z (exists I$i Z (I$i = Z and p(Z)) -> r)", "exists Z (exists I$i (Z = I$i and p(I$i)) and not q(Z))",
+    "exists I$i S$s (I$i = X and S$s = X and p(S$s))", "exists S$s I$i (S$s = X and I$i = X and p(I$i))", "exists I$i S$s (I$i = X and S$s = X)",
+    "not p(1) -> p(1)", "p(1) -> not p(1)", "not r -> r", "(not p(X) -> p(X)) -> q(X)", "forall X (not p(X) -> p(X))", "not not r -> r", "r or not r",
 ]
 
 
